@@ -209,7 +209,7 @@ class C09(Property):
             bad('interactive_vs_module:error', module=[ex['err'], ex['offset']], interactive=[si['err'], si['offset']])
         # expression mode == the expression statement of module mode
         if 'ok' in ex and len(ex['ok']['body']) == 1 and ex['ok']['body'][0]['_'] == 'Expr' and \
-                re.fullmatch(rb'([ \t\x0c\r\n]|#[^\r\n]*|\\\r?\n|\\\r)*', text.encode('utf-8')[ex['ok']['body'][0]['range'][1]:]):
+                re.fullmatch(rb'([ \t\x0c\r\n]|#[^\r\n]*+|\\\r?\n|\\\r)*+', text.encode('utf-8')[ex['ok']['body'][0]['range'][1]:]):
             # (a trailing ';' belongs to the statement list, not to the expression: such texts are not one expression)
             v = ex['ok']['body'][0]['value']
             if v['_'] in ('Yield', 'YieldFrom', 'Starred') or (v['_'] == 'Tuple' and any(e['_'] == 'Starred' for e in v['elts'])):
